@@ -14,6 +14,7 @@
 #include <memory>
 #include <vector>
 
+#include "corecel/Assert.hh"
 #include "celeritas/field/RZMapField.hh"
 #include "celeritas/field/RZMapFieldInput.hh"
 #include "celeritas/field/RZMapFieldParams.hh"
@@ -173,6 +174,60 @@ inline void check_one_map(verif::Report& rep, verif::Rng& r, RZMapFieldInput con
                               "RZMapField value lies outside the range spanned by the corners of the enclosing cell", w);
             else
                 rep.held(std::string("field-map/range/") + (rr > 0 ? "off-axis" : "on-axis"));
+        }
+
+        // exactly on the outer grid planes (z == max_z, r == max_r, or both) and on the inner ones
+        // (z == min_z, r == min_r): evaluating the field there is valid use; the value must be
+        // finite and either zero ("outside") or inside the range of the nodes of the adjacent
+        // cell, and the interpolation must not trip a library precondition (in the debug/asan
+        // replica UniformGrid::find and Collection::operator[] are checked: an assertion here
+        // is an out-of-range table index in a release build)
+        {
+            int which = int(r.integer(0, 4));  // 0: z=max, 1: r=max, 2: both max, 3: z=min, 4: r=min
+            double rr = (which == 1 || which == 2) ? inp.max_r
+                        : which == 4             ? inp.min_r
+                                                 : r.uniform(inp.min_r + 1e-6 * dr, inp.max_r - 1e-6 * dr);
+            double z = (which == 0 || which == 2) ? inp.max_z
+                       : which == 3              ? inp.min_z
+                                                 : r.uniform(inp.min_z + 1e-6 * dz, inp.max_z - 1e-6 * dz);
+            // radius exactly representable: put the point on the x axis (sqrt(x*x) == x)
+            Real3 p{rr, 0, z};
+            static char const* const names[] = {"z-max", "r-max", "corner-max", "z-min", "r-min"};
+            try
+            {
+                Real3 b = field(p);
+                json w = describe(p, b);
+                w["edge"] = names[which];
+                double fz = (z - inp.min_z) / dz, fr = (rr - inp.min_r) / dr;
+                int iz0 = std::max(0, int(std::floor(fz - 1e-9)) - 1), iz1 = std::min(int(nz) - 1, int(std::floor(fz + 1e-9)) + 1);
+                int ir0 = std::max(0, int(std::floor(fr - 1e-9)) - 1), ir1 = std::min(int(nr) - 1, int(std::floor(fr + 1e-9)) + 1);
+                double lo[2] = {0, 0}, hi[2] = {0, 0};  // zero is always allowed on an edge
+                for (int iz = iz0; iz <= iz1; ++iz)
+                    for (int ir = ir0; ir <= ir1; ++ir)
+                        for (int comp = 0; comp < 2; ++comp)
+                        {
+                            double v = node(unsigned(iz), unsigned(ir), comp == 1);
+                            lo[comp] = std::min(lo[comp], v);
+                            hi[comp] = std::max(hi[comp], v);
+                        }
+                bool finite = std::isfinite(b[0]) && std::isfinite(b[1]) && std::isfinite(b[2]);
+                bool ok = finite && b[2] >= lo[0] - tol && b[2] <= hi[0] + tol && b[0] >= lo[1] - tol
+                          && b[0] <= hi[1] + tol && std::fabs(b[1]) <= tol;
+                if (!ok)
+                    rep.violation(which <= 2 ? "C08/rzmap/start-on-upper-grid-plane" : "C08/field-map/lower-edge-value",
+                                  "RZMapField exactly on an outer grid plane: value non-finite or outside the range of the adjacent nodes", w);
+                else
+                    rep.held(std::string("field-map/edge/") + names[which]);
+            }
+            catch (celeritas::DebugError const& e)
+            {
+                json w = describe(p, Real3{0, 0, 0});
+                w["edge"] = names[which];
+                w["assertion"] = std::string(e.what()).substr(0, 400);
+                rep.violation(which <= 2 ? "C08/rzmap/start-on-upper-grid-plane" : "C08/field-map/lower-edge-assert",
+                              "RZMapField exactly on an outer grid plane: valid() lets the point through but the "
+                              "interpolation's precondition fails (out-of-range table index in a release build)", w);
+            }
         }
 
         // outside the map: zero field
